@@ -36,9 +36,15 @@ Definition stable (c : cfg) (n1 n2 : subnet) : Prop :=
   /\ configChanged (homeSubnet c) (n_cfg n1) = false
   /\ configChanged (netfilterSubnet c) (n_cfg n2) = false.
 
-(* the NIC's home LAN is given as a network address (192.168.0.0/24, not 192.168.0.129/24);
-   otherwise configChanged is true after every reset and no restart ever keeps a lease *)
-Definition home_masked (c : cfg) : Prop := paddr (pmasked (c_home c)) = paddr (c_home c).
+Lemma prefix_eqb_refl p : prefix_eqb p p = true.
+Proof. destruct p as [|a b]; simpl; auto. rewrite addr_eqb_refl, N.eqb_refl. reflexivity. Qed.
+
+Lemma prefix_eqb_eq p q : prefix_eqb p q = true -> p = q.
+Proof.
+  destruct p as [|a b], q as [|a' b']; simpl; try discriminate; auto.
+  intros H. apply andb_true_iff in H. destruct H as [H1 H2].
+  apply addr_eqb_eq in H1. apply N.eqb_eq in H2. congruence.
+Qed.
 
 Lemma reset_inv c s : reset c = Ok s ->
   newSubnet (homeSubnet c) = Ok (d_n1 s) /\ newSubnet (netfilterSubnet c) = Ok (d_n2 s) /\ d_table s = [].
@@ -49,12 +55,11 @@ Proof.
 Qed.
 
 Lemma configChanged_fresh sc n : s_dur sc = 0%Z -> s_first sc = AInv ->
-  newSubnet sc = Ok n -> paddr (pmasked (s_lan sc)) = paddr (s_lan sc) ->
-  configChanged sc (n_cfg n) = false.
+  newSubnet sc = Ok n -> configChanged sc (n_cfg n) = false.
 Proof.
-  intros Hd Hf H Hm. destruct (newSubnet_lan _ _ H) as [El _].
+  intros Hd Hf H. destruct (newSubnet_lan _ _ H) as [El _].
   destruct (newSubnet_ok _ _ H) as (n0 & b & _ & _ & _ & Egw & Edh & Edns & _).
-  unfold configChanged. rewrite El, Hm, Egw, Edh, Edns, Hd, Hf, !addr_eqb_refl. reflexivity.
+  unfold configChanged. rewrite El, prefix_eqb_refl, Egw, Edh, Edns, Hd, Hf, !addr_eqb_refl. reflexivity.
 Qed.
 
 Lemma pmasked_idem p : pmasked (pmasked p) = pmasked p.
@@ -90,10 +95,10 @@ Proof.
 Qed.
 
 (* every state the constructor returns carries stable subnets *)
-Lemma new_stable c cap i s : home_masked c -> new c cap i = Ok s ->
+Lemma new_stable c cap i s : new c cap i = Ok s ->
   cfg_ok c = true /\ stable c (d_n1 s) (d_n2 s).
 Proof.
-  intros Hm H.
+  intros H.
   destruct (new_cases c cap i) as [[_ E]|[(Hok & _ & E)|[(Hok & _ & E)|(Hok & n1 & n2 & t & HL & C1 & C2 & E)]]];
     rewrite E in H; try discriminate.
   - split; auto. destruct (reset_inv _ _ H) as (H1 & H2 & _).
@@ -101,7 +106,7 @@ Proof.
     + eapply newSubnet_idem; eauto.
     + eapply newSubnet_idem; eauto.
     + apply configChanged_fresh; auto.
-    + apply configChanged_fresh; auto. simpl. rewrite pmasked_idem. reflexivity.
+    + apply configChanged_fresh; auto.
   - inversion H; subst; simpl. split; auto.
     destruct (loadConfig_inv _ _ _ _ _ HL) as (st & d & -> & Hl).
     destruct (load_inv _ _ _ _ _ Hl) as ((c1 & _ & N1) & (c2 & _ & N2) & _).
@@ -111,30 +116,24 @@ Qed.
 (* ---------------------------------------------------------------- *)
 (* loading what was saved *)
 
-Lemma known_restart_false s1 t l :
-  known_C18_restart t = false -> alloc_in_net1 s1 t = true -> In l t -> allocated l = true ->
-  rec_ok s1 (l_rec l) = true.
+Lemma persistable_rec_ok s1 t l :
+  persistable s1 t = true -> In l t -> allocated l = true -> rec_ok s1 (l_rec l) = true.
 Proof.
-  unfold known_C18_restart, alloc_in_net1. intros Hk Hi Hin Ha.
-  rewrite forallb_forall in Hi. specialize (Hi l Hin). rewrite Ha in Hi. simpl in Hi.
-  unfold rec_ok. rewrite Hi. simpl.
-  destruct (bytes_eqb (r_cid (l_rec l)) []) eqn:E; auto.
-  exfalso. assert (Hex : existsb (fun l => allocated l && bytes_eqb (r_cid (l_rec l)) []) t = true).
-  { apply existsb_exists. exists l. split; auto. rewrite Ha, E. reflexivity. }
-  congruence.
+  unfold persistable. intros Hi Hin Ha.
+  rewrite forallb_forall in Hi. specialize (Hi l Hin). rewrite Ha in Hi. simpl in Hi. exact Hi.
 Qed.
 
 Lemma load_saved cap n1 n2 t ord :
   newSubnet (n_cfg n1) = Ok n1 -> newSubnet (n_cfg n2) = Ok n2 ->
-  known_C18_restart t = false -> alloc_in_net1 n1 t = true -> NoDup (map l_cid t) -> Permutation ord t ->
+  persistable n1 t = true -> NoDup (map l_cid t) -> Permutation ord t ->
   load cap (save n1 n2 ord) = Ok (n1, n2, map (restored cap n2) (save_leases ord)).
 Proof.
-  intros H1 H2 Hk Hi Hnd Hp. unfold load, save; simpl. rewrite H1, H2. simpl.
+  intros H1 H2 Hi Hnd Hp. unfold load, save; simpl. rewrite H1, H2. simpl.
   rewrite (load_loop_all_ok cap n1 n2 (save_leases ord) []); simpl; auto.
   - intros r Hr. unfold save_leases in Hr. apply in_map_iff in Hr. destruct Hr as (l & <- & Hl).
     apply filter_In in Hl. destruct Hl as [Hin Ha]. split.
     + exact Ha.
-    + eapply known_restart_false; eauto. eapply Permutation_in; eauto.
+    + eapply persistable_rec_ok; eauto. eapply Permutation_in; eauto.
   - unfold save_leases. rewrite map_map. change (fun x => r_cid (l_rec x)) with l_cid.
     apply NoDup_map_filter. eapply Permutation_NoDup; [|exact Hnd].
     apply Permutation_map. apply Permutation_sym. exact Hp.
@@ -184,18 +183,17 @@ Section Oracle.
   Lemma restart_core :
     forall c cap0 i0 s cap t ord st,
       st <> SumBad ->
-      home_masked c ->
       new c cap0 i0 = Ok s ->
-      known_C18_restart t = false -> alloc_in_net1 (d_n1 s) t = true ->
+      persistable (d_n1 s) t = true ->
       NoDup (map l_cid t) -> Permutation ord t ->
       exists s', new c cap (Doc st (save (d_n1 s) (d_n2 s) ord)) = Ok s'
                  /\ d_n1 s' = d_n1 s /\ d_n2 s' = d_n2 s
                  /\ d_table s' = map (restored cap (d_n2 s)) (save_leases ord)
                  /\ Permutation (bindings (d_table s')) (acked_bindings t).
   Proof.
-    intros c cap0 i0 s cap t ord st Hst Hm Hnew Hk Hi Hnd Hp.
-    destruct (new_stable _ _ _ _ Hm Hnew) as (Hok & S1 & S2 & C1 & C2).
-    pose proof (load_saved cap _ _ _ _ S1 S2 Hk Hi Hnd Hp) as HL.
+    intros c cap0 i0 s cap t ord st Hst Hnew Hi Hnd Hp.
+    destruct (new_stable _ _ _ _ Hnew) as (Hok & S1 & S2 & C1 & C2).
+    pose proof (load_saved cap _ _ _ _ S1 S2 Hi Hnd Hp) as HL.
     unfold cfg_ok in Hok. apply andb_true_iff in Hok. destruct Hok as [Hv Hc].
     eexists. split.
     - unfold new. rewrite Hv, Hc. simpl.
@@ -206,22 +204,21 @@ Section Oracle.
   Qed.
 
   (* C18_restart: take ANY state [s] the constructor returned for configuration [c], let the lease table evolve
-     to ANY table [t] with distinct keys (outside the recorded class, satisfying the server's invariant), save
+     to ANY table [t] with distinct keys (satisfying the server's invariant [persistable]), save
      it in ANY map order [ord], and construct again (the capture state [cap] of the session may have changed):
      the new handler carries the same subnets and exactly the acknowledged (client id, MAC, IP) bindings. *)
   Lemma restart_partial :
     yaml_roundtrip ->
     forall c cap0 i0 s cap t ord,
-      home_masked c ->
       new c cap0 i0 = Ok s ->
-      known_C18_restart t = false -> alloc_in_net1 (d_n1 s) t = true ->
+      persistable (d_n1 s) t = true ->
       NoDup (map l_cid t) -> Permutation ord t ->
       exists s', new c cap (read (print (save (d_n1 s) (d_n2 s) ord))) = Ok s'
                  /\ d_n1 s' = d_n1 s /\ d_n2 s' = d_n2 s
                  /\ d_table s' = map (restored cap (d_n2 s)) (save_leases ord)
                  /\ Permutation (bindings (d_table s')) (acked_bindings t).
   Proof.
-    intros Hy c cap0 i0 s cap t ord Hm Hnew Hk Hi Hnd Hp. rewrite Hy.
+    intros Hy c cap0 i0 s cap t ord Hnew Hi Hnd Hp. rewrite Hy.
     eapply restart_core; eauto. discriminate.
   Qed.
 
@@ -241,90 +238,80 @@ Section Oracle.
   Lemma damaged_intact_or_empty :
     checksum_detects ->
     forall c cap0 i0 s cap t ord x,
-      home_masked c ->
       new c cap0 i0 = Ok s ->
-      known_C18_restart t = false -> alloc_in_net1 (d_n1 s) t = true ->
+      persistable (d_n1 s) t = true ->
       NoDup (map l_cid t) -> Permutation ord t ->
       dmg x (print (save (d_n1 s) (d_n2 s) ord)) ->
       (exists s', new c cap (read x) = Ok s' /\ Permutation (bindings (d_table s')) (acked_bindings t))
       \/ (forall s', new c cap (read x) = Ok s' -> d_table s' = []).
   Proof.
-    intros Hd c cap0 i0 s cap t ord x Hm Hnew Hk Hi Hnd Hp Hx.
+    intros Hd c cap0 i0 s cap t ord x Hnew Hi Hnd Hp Hx.
     destruct (Hd _ _ Hx) as [E|[[d' E]|[[st [Hst E]]|[d' [E Hl]]]]]; rewrite E.
     - right. intros s'. apply new_no_load_empty. intros n1 n2 t0. simpl. discriminate.
     - right. intros s'. apply new_no_load_empty. intros n1 n2 t0. simpl. discriminate.
-    - left. destruct (restart_core c cap0 i0 s cap t ord st Hst Hm Hnew Hk Hi Hnd Hp) as (s' & H1 & _ & _ & _ & H5).
+    - left. destruct (restart_core c cap0 i0 s cap t ord st Hst Hnew Hi Hnd Hp) as (s' & H1 & _ & _ & _ & H5).
       exists s'. auto.
     - right. intros s'. apply new_noleases_empty. exact Hl.
   Qed.
 End Oracle.
 
-(* the full restart statement is refuted by the faithful model: an acknowledged lease with an empty client id is
-   dropped by the validation.  The oracle is instantiated by the identity. *)
+(* the invariant cannot be dropped: an Allocated lease with an empty client id, or with an address outside net1,
+   is saved and then dropped by the validation.  The oracle is instantiated by the identity. *)
 Definition ex_rec_nocid : lease_rec :=
   {| r_cid := []; r_state := 2%Z; r_mac := [2; 0; 0; 0; 0; 1]; r_ip := A4 3232235532; r_expiry := 1000%Z |}.
 Definition ex_rec_offnet : lease_rec :=
   {| r_cid := [7]; r_state := 2%Z; r_mac := [2; 0; 0; 0; 0; 2]; r_ip := A4 167772161; r_expiry := 1000%Z |}.
 
-Lemma restart_refuted :
-  exists c s t,
-    home_masked c /\ new c (fun _ => false) ReadErr = Ok s /\ NoDup (map l_cid t)
-    /\ alloc_in_net1 (d_n1 s) t = true
-    /\ known_C18_restart t = true
-    /\ exists s', new c (fun _ => false) (Doc SumOk (save (d_n1 s) (d_n2 s) t)) = Ok s'
-                  /\ ~ Permutation (bindings (d_table s')) (acked_bindings t).
-Proof.
-  exists ex_cfg.
-  destruct (new ex_cfg (fun _ => false) ReadErr) as [s| | |] eqn:E; try (vm_compute in E; discriminate).
-  exists s, [{| l_rec := ex_rec_nocid; l_sub := 1 |}].
-  vm_compute in E. inversion E; subst; clear E.
-  split; [reflexivity|]. split; [reflexivity|].
-  split; [repeat constructor; simpl; intuition discriminate|].
-  split; [vm_compute; reflexivity|]. split; [vm_compute; reflexivity|].
-  eexists. split; [vm_compute; reflexivity|].
-  intros HP. apply Permutation_nil in HP. discriminate.
-Qed.
-
-(* the invariant is needed too: an Allocated lease outside net1 (not reachable since /repo 7baf630) is dropped *)
 Lemma restart_needs_invariant :
+  forall r, r = ex_rec_nocid \/ r = ex_rec_offnet ->
   exists c s t,
-    home_masked c /\ new c (fun _ => false) ReadErr = Ok s /\ NoDup (map l_cid t)
-    /\ known_C18_restart t = false /\ alloc_in_net1 (d_n1 s) t = false
+    t = [{| l_rec := r; l_sub := 1 |}]
+    /\ new c (fun _ => false) ReadErr = Ok s /\ NoDup (map l_cid t)
+    /\ persistable (d_n1 s) t = false
     /\ exists s', new c (fun _ => false) (Doc SumOk (save (d_n1 s) (d_n2 s) t)) = Ok s'
                   /\ ~ Permutation (bindings (d_table s')) (acked_bindings t).
 Proof.
-  exists ex_cfg.
+  intros r Hr. exists ex_cfg.
   destruct (new ex_cfg (fun _ => false) ReadErr) as [s| | |] eqn:E; try (vm_compute in E; discriminate).
-  exists s, [{| l_rec := ex_rec_offnet; l_sub := 1 |}].
-  vm_compute in E. inversion E; subst; clear E.
+  exists s, [{| l_rec := r; l_sub := 1 |}].
+  vm_compute in E. inversion E; subst s; clear E.
   split; [reflexivity|]. split; [reflexivity|].
-  split; [repeat constructor; simpl; intuition discriminate|].
-  split; [vm_compute; reflexivity|]. split; [vm_compute; reflexivity|].
-  eexists. split; [vm_compute; reflexivity|].
-  intros HP. apply Permutation_nil in HP. discriminate.
+  split; [repeat constructor; simpl; intuition|].
+  destruct Hr as [->| ->].
+  - split; [vm_compute; reflexivity|].
+    eexists. split; [vm_compute; reflexivity|].
+    intros HP. apply Permutation_nil in HP. discriminate.
+  - split; [vm_compute; reflexivity|].
+    eexists. split; [vm_compute; reflexivity|].
+    intros HP. apply Permutation_nil in HP. discriminate.
 Qed.
 
 Example restart_nonvacuous :
-  exists s, home_masked ex_cfg /\ new ex_cfg (fun _ => false) ReadErr = Ok s
-    /\ known_C18_restart [{| l_rec := ex_rec; l_sub := 1 |}] = false
-    /\ alloc_in_net1 (d_n1 s) [{| l_rec := ex_rec; l_sub := 1 |}] = true
+  exists s, new ex_cfg (fun _ => false) ReadErr = Ok s
+    /\ persistable (d_n1 s) [{| l_rec := ex_rec; l_sub := 1 |}] = true
     /\ acked_bindings [{| l_rec := ex_rec; l_sub := 1 |}] <> [].
 Proof.
   destruct (new ex_cfg (fun _ => false) ReadErr) as [s| | |] eqn:E; try (vm_compute in E; discriminate).
   exists s. vm_compute in E. inversion E; subst; clear E.
-  split; [reflexivity|]. split; [reflexivity|]. split; [vm_compute; reflexivity|].
-  split; [vm_compute; reflexivity|discriminate].
+  split; [reflexivity|]. split; [vm_compute; reflexivity|discriminate].
 Qed.
 
 (* ---------------------------------------------------------------- *)
 (* what a constructed table can contain, for ANY input (damaged files included) *)
 
+Lemma contains_pmasked p x : contains (pmasked p) x = contains p x.
+Proof.
+  destruct p as [|[|n|v z] b]; simpl; auto.
+  - apply contains_masked4.
+  - unfold contains; simpl. destruct x as [|m|w y]; auto. destruct y; auto. rewrite maskw_div. reflexivity.
+Qed.
+
 Lemma new_table_filters c cap i s : new c cap i = Ok s ->
   forall l, In l (d_table s) ->
     allocated l = true
     /\ r_cid (l_rec l) <> []
-    /\ (exists st d, i = Doc st d /\ In (l_rec l) (d_leases d))
-    /\ (known_C18_bits c i = false -> contains (c_home c) (r_ip (l_rec l)) = true).
+    /\ (exists st d, i = Doc st d /\ st <> SumBad /\ In (l_rec l) (d_leases d))
+    /\ contains (c_home c) (r_ip (l_rec l)) = true.
 Proof.
   intros H l Hin.
   destruct (new_cases c cap i) as [[_ E]|[(Hok & _ & E)|[(Hok & _ & E)|(Hok & n1 & n2 & t & HL & C1 & C2 & E)]]];
@@ -333,35 +320,12 @@ Proof.
   - inversion H; subst; simpl in *.
     destruct (loadConfig_inv _ _ _ _ _ HL) as (st & d & -> & Hl).
     destruct (load_filters _ _ _ _ _ Hl l Hin) as (Ha & Hc & Hcid & Hdoc).
-    repeat split; auto; [eauto|].
-    intros Hbits. simpl in Hbits.
-    destruct (load_inv _ _ _ _ _ Hl) as ((c1 & Ec1 & N1) & _ & _). rewrite Ec1 in Hbits.
-    destruct (newSubnet_ok _ _ N1) as (n & b & El & Hb & Elan & _).
-    rewrite El in Hbits. simpl in Hbits.
-    (* configChanged false: the home address equals the loaded net1 address *)
-    unfold configChanged in C1. repeat (apply orb_false_iff in C1; destruct C1 as [C1 ?]).
-    apply negb_false_iff in C1. apply addr_eqb_eq in C1. simpl in C1. rewrite Elan in C1. simpl in C1.
-    rewrite Elan in Hc.
-    destruct (c_home c) as [|ha hb]; simpl in C1; [discriminate|]. subst ha. simpl in Hbits.
-    destruct (contains4_is4 _ _ _ Hc) as [m Em]. rewrite Em in *.
-    eapply contains_coarser; [| |exact Hc]; lia.
-Qed.
-
-(* refuted in general: net1 of the file wider than the home LAN *)
-Definition ex_net1_wide : subnetcfg :=
-  {| s_lan := P (A4 3232235520) 16; s_gw := s_gw ex_net1; s_dhcp := s_dhcp ex_net1; s_dns := s_dns ex_net1;
-     s_first := s_first ex_net1; s_dur := s_dur ex_net1; s_stage := 1 |}.
-Definition ex_rec_out : lease_rec :=
-  {| r_cid := [9]; r_state := 2%Z; r_mac := [2; 0; 0; 0; 0; 3]; r_ip := A4 3232235781; r_expiry := 0%Z |}. (* 192.168.1.5 *)
-Definition ex_doc_wide : doc := {| d_net1 := Some ex_net1_wide; d_net2 := Some ex_net2; d_leases := [ex_rec_out] |}.
-
-Lemma new_in_home_refuted :
-  exists s l, new ex_cfg (fun _ => false) (Doc SumAbsent ex_doc_wide) = Ok s /\ In l (d_table s)
-              /\ contains (c_home ex_cfg) (r_ip (l_rec l)) = false
-              /\ known_C18_bits ex_cfg (Doc SumAbsent ex_doc_wide) = true.
-Proof.
-  eexists. exists {| l_rec := ex_rec_out; l_sub := 1 |}.
-  split; [vm_compute; reflexivity|]. split; [left; reflexivity|]. split; vm_compute; reflexivity.
+    repeat split; auto.
+    + exists st, d. repeat split; auto. intros ->. simpl in HL. discriminate.
+    + (* configChanged false: the loaded net1 is exactly the masked home LAN *)
+      unfold configChanged in C1. repeat (apply orb_false_iff in C1; destruct C1 as [C1 ?]).
+      apply negb_false_iff in C1. apply prefix_eqb_eq in C1. simpl in C1.
+      rewrite <- C1, contains_pmasked in Hc. exact Hc.
 Qed.
 
 (* ---------------------------------------------------------------- *)
@@ -420,8 +384,7 @@ Qed.
 Lemma new_table_wf c cap i s : new c cap i = Ok s ->
   NoDup (map l_cid (d_table s))
   /\ (forall l, In l (d_table s) -> allocated l = true)
-  /\ known_C18_restart (d_table s) = false
-  /\ alloc_in_net1 (d_n1 s) (d_table s) = true.
+  /\ persistable (d_n1 s) (d_table s) = true.
 Proof.
   intros H.
   destruct (new_cases c cap i) as [[_ E]|[(Hok & _ & E)|[(Hok & _ & E)|(Hok & n1 & n2 & t & HL & C1 & C2 & E)]]];
@@ -434,15 +397,12 @@ Proof.
     repeat split.
     + apply load_loop_NoDup. constructor.
     + intros l Hin. apply (HF l Hin).
-    + unfold known_C18_restart. apply existsb_false. intros l Hin.
-      destruct (HF l Hin) as (Ha & Hc & Hcid & _).
-      rewrite Ha. simpl.
-      destruct (r_cid (l_rec l)) as [|x xs]; [contradiction|reflexivity].
-    + unfold alloc_in_net1. apply forallb_forall. intros l Hin.
+    + unfold persistable. apply forallb_forall. intros l Hin.
       destruct (HF l Hin) as (Ha & Hc & Hcid & _).
       rewrite Ha, Hc. simpl.
       assert (Hv : avalid (r_ip (l_rec l)) = true) by (eapply contains_avalid; eauto).
-      rewrite Hv. reflexivity.
+      rewrite Hv. simpl.
+      destruct (r_cid (l_rec l)) as [|x xs]; [contradiction|reflexivity].
 Qed.
 
 Section Oracle2.
@@ -456,15 +416,14 @@ Section Oracle2.
   Lemma restart_fixpoint :
     yaml_roundtrip text print read ->
     forall c cap0 i0 s cap,
-      home_masked c ->
       new c cap0 i0 = Ok s ->
       exists s', new c cap (read (print (save (d_n1 s) (d_n2 s) (d_table s)))) = Ok s'
                  /\ d_n1 s' = d_n1 s /\ d_n2 s' = d_n2 s
                  /\ bindings (d_table s') = bindings (d_table s).
   Proof.
-    intros Hy c cap0 i0 s cap Hm Hnew.
-    destruct (new_table_wf _ _ _ _ Hnew) as (Hnd & Hall & Hk & Hi).
-    destruct (restart_partial text print read Hy c cap0 i0 s cap (d_table s) (d_table s) Hm Hnew Hk Hi Hnd (Permutation_refl _))
+    intros Hy c cap0 i0 s cap Hnew.
+    destruct (new_table_wf _ _ _ _ Hnew) as (Hnd & Hall & Hi).
+    destruct (restart_partial text print read Hy c cap0 i0 s cap (d_table s) (d_table s) Hnew Hi Hnd (Permutation_refl _))
       as (s' & E & E1 & E2 & Et & _).
     exists s'. repeat split; auto.
     rewrite Et, bindings_restored. unfold acked_bindings. rewrite (filter_all _ _ Hall). reflexivity.
